@@ -148,6 +148,15 @@ def main():
         if model:
             model.close()
     obligations, discharged, log, status = common.check_props_file(prop)
+    if args.tier == "thorough":
+        # independent re-check of the compiled property file and everything it depends on
+        rcc, outc = common.sh("timeout 3000 coqchk -silent -o -Q gen \"\" -Q Model \"\" -Q Proofs \"\" -Q Props \"\" %s 2>&1" % prop, cwd=common.COQ, timeout=3100)
+        import re as _re
+        m = _re.search(r"\* Axioms:\s*(.*?)\n\s*\n\* Constants", outc, flags=_re.S)
+        axioms = (m.group(1).strip() if m else "coqchk output not understood")
+        run.notes.append("coqchk -o: Axioms: " + axioms)
+        if rcc != 0 or axioms != "<none>":
+            run.broken.append("coqchk -o on Props/%s: rc=%d axioms=%s" % (prop, rcc, axioms[:200]))
     rc = finalize(run, spec, obligations, discharged, log, b)
     sys.exit(rc)
 
